@@ -187,6 +187,9 @@ func capPreCount(swampObj swamp.Swamp, predicate func(treasureForCount) bool) (i
 	adapted := func(t treasure.Treasure) bool {
 		return predicate(t)
 	}
+	// Take the Cap serialisation mutex BEFORE counting: a count taken outside the mutex can be stale by the
+	// time the batch starts (another cap-bearing flow may still be applying its patches).
+	swampObj.LockCapMu()
 	count := swampObj.CountMatchingTreasures(adapted)
 	if verifhook.Enabled {
 		verifhook.Yield("cap.precount.done", swampObj, count)
@@ -195,7 +198,6 @@ func capPreCount(swampObj swamp.Swamp, predicate func(treasureForCount) bool) (i
 	// interface does not expose it directly. Acquire it via the
 	// public LockCapMu / UnlockCapMu accessors added on the swamp
 	// interface so the gateway can hold it for the whole batch.
-	swampObj.LockCapMu()
 	return count, swampObj.UnlockCapMu
 }
 
